@@ -165,3 +165,71 @@ def run_function(repo, func, env):
     return None
   r = run(func.node.body)
   return r if r is not None else ('return', None)
+
+
+def reaches(body, target, test_eval):
+  """Is the AST node `target` executed when `body` runs and every `if` test
+  is decided by test_eval(test) (may raise Undecided)?  -> 'yes' | 'no' |
+  'maybe' ('maybe': only through a test that could not be decided, or inside
+  a loop / handler whose execution is not decided here)."""
+  def contains(s):
+    return any(x is target for x in ast.walk(s))
+
+  def run(stmts, certain):
+    """(hit, falls_through)"""
+    for s in stmts:
+      if isinstance(s, ast.If):
+        if contains(s.test):
+          return ('yes' if certain else 'maybe', False)
+        try:
+          t = bool(test_eval(s.test))
+        except Undecided:
+          t = None
+        if t is not None:
+          hit, falls = run(s.body if t else s.orelse, certain)
+          if hit or not falls:
+            return (hit, falls)
+          continue
+        r1, r2 = run(s.body, False), run(s.orelse, False)
+        if r1[0] or r2[0]:
+          return ('maybe', False)
+        if not (r1[1] or r2[1]):
+          return (None, False)
+        certain = False
+        continue
+      if isinstance(s, (ast.Return, ast.Raise)):
+        return (('yes' if certain else 'maybe') if contains(s) else None,
+                False)
+      if isinstance(s, ast.With):
+        hit, falls = run(s.body, certain)
+        if hit or not falls:
+          return (hit, falls)
+        continue
+      if isinstance(s, (ast.For, ast.While, ast.Try)):
+        if contains(s):
+          return ('maybe', False)
+        if any(isinstance(x, (ast.Return, ast.Raise)) for x in ast.walk(s)):
+          certain = False
+        continue
+      if contains(s):
+        # conditional expressions on the way down to the target
+        node, ok = s, certain
+        while node is not target:
+          nxt = None
+          for ch in ast.iter_child_nodes(node):
+            if any(x is target for x in ast.walk(ch)):
+              nxt = ch
+              break
+          if isinstance(node, ast.IfExp) and nxt is not node.test:
+            try:
+              t = bool(test_eval(node.test))
+            except Undecided:
+              t = None
+            if t is None:
+              ok = False
+            elif t != (nxt is node.body):
+              return (None, True)
+          node = nxt
+        return ('yes' if ok else 'maybe', False)
+    return (None, True)
+  return run(body, True)[0] or 'no'
